@@ -157,9 +157,25 @@ impl Ctx {
         self.tier == Tier::Quick
     }
 
+    /// Tiny mode (`VERIF_TINY=1`): a minimal workload for interpreters / sanitizers
+    /// (Miri is ~10^4 times slower than native). Monitors shrink their bounds drastically.
+    pub fn tiny(&self) -> bool {
+        std::env::var("VERIF_TINY").is_ok_and(|v| v == "1")
+    }
+
+    /// Reduced mode (`VERIF_SAN=1`): the quick workload scaled down for compiler sanitizers (5-20x slower).
+    pub fn san(&self) -> bool {
+        std::env::var("VERIF_SAN").is_ok_and(|v| v == "1")
+    }
+
     /// Choose a bound by tier.
     pub fn scale<T>(&self, quick: T, thorough: T) -> T {
         if self.quick() { quick } else { thorough }
+    }
+
+    /// Choose a bound by mode: tiny (Miri) / quick / thorough.
+    pub fn scale3<T>(&self, tiny: T, quick: T, thorough: T) -> T {
+        if self.tiny() { tiny } else { self.scale(quick, thorough) }
     }
 
     pub fn elapsed(&self) -> Duration {
@@ -327,6 +343,9 @@ impl Ctx {
 
     /// Number of worker threads to use.
     pub fn cores(&self) -> usize {
+        if self.tiny() {
+            return 1;
+        }
         std::env::var("VERIF_JOBS")
             .ok()
             .and_then(|s| s.parse().ok())
